@@ -91,3 +91,52 @@ Fixpoint layout_okb (prev : option ltok) (gs : list str) (ts : list ltok) : bool
     forallb is_space (gap_hd gs) && (negb (needs_gap prev t) || negb (is_nil (gap_hd gs)))
     && layout_okb (Some t) (tl gs) ts'
   end.
+
+(* ------------------------------------------------------------------------------------------- *)
+(* source-level layouts: gaps may also contain %-comments and every kind of line end.
+   A gap is a list of items; a comment runs to a line end. *)
+Inductive brk := BrCRLF | BrChar (c : char).      (* c: a line-break character other than CR *)
+Inductive gitem := GWs (c : char) | GBrk (b : brk) | GCom (cm : str) (b : brk).
+Definition sgap := list gitem.
+
+Definition brk_text (b : brk) : str := match b with BrCRLF => [13; 10] | BrChar c => [c] end.
+Definition gitem_text (i : gitem) : str :=
+  match i with
+  | GWs c => [c]
+  | GBrk b => brk_text b
+  | GCom cm b => c_percent :: cm ++ brk_text b
+  end.
+Definition sgap_text (g : sgap) : str := flat_map gitem_text g.
+
+Definition brk_okb (b : brk) : bool :=
+  match b with BrCRLF => true | BrChar c => is_linebreak c && negb (c =? 13) end.
+Definition gitem_okb (i : gitem) : bool :=
+  match i with
+  | GWs c => is_space c && negb (is_linebreak c)             (* blank, tab, no-break space ... *)
+  | GBrk b => brk_okb b                                      (* LF, CRLF, VT, FF, FS, GS, RS, NEL, LS, PS *)
+  | GCom cm b => forallb (fun c => negb (is_linebreak c)) cm && brk_okb b   (* any text without a line end *)
+  end.
+Definition default_sgap : sgap := [GWs c_space].
+Definition sgap_hd (gs : list sgap) : sgap := match gs with g :: _ => g | [] => default_sgap end.
+Fixpoint slayout_okb (prev : option ltok) (gs : list sgap) (ts : list ltok) : bool :=
+  match ts with
+  | [] => forallb gitem_okb (match gs with g :: _ => g | [] => [] end)
+  | t :: ts' =>
+    forallb gitem_okb (sgap_hd gs)
+    && (negb (needs_gap prev t) || negb (match sgap_hd gs with [] => true | _ => false end))
+    && slayout_okb (Some t) (tl gs) ts'
+  end.
+
+(* what the source level adds to wf_programb: a percent sign would start a comment inside a name,
+   and a string literal must stay on its line *)
+Definition no_percent (s : str) : bool := forallb (fun c => negb (c =? c_percent)) s.
+Definition no_linebreak (s : str) : bool := forallb (fun c => negb (is_linebreak c)) s.
+Fixpoint src_tokb (t : tok) : bool :=
+  match t with
+  | TInt _ => true
+  | TStr s => no_linebreak s
+  | TQuote s | TId s => no_percent s
+  | TFun body => forallb src_tokb body
+  end.
+Definition src_programb (p : program) : bool :=
+  forallb (fun c : command => no_percent (fst c) && forallb (forallb src_tokb) (snd c)) p.
